@@ -20,7 +20,7 @@ RULE = ('Zone layouts and programs are generated together (the generator reads t
 ASSUMPTIONS = [
     'an origin outside its named zone is decided only by what follows it: a byte placed from there must be rejected; '
     'with no byte placed the origin alone is not decided by the property',
-    'includes are not placed inside muted or conditionally excluded regions (that interaction is C08/C17)',
+    'includes are not placed inside conditionally excluded regions (that interaction is C08/C17)',
     'zones predefined in the configuration are generated inside GLOBAL',
 ]
 BUDGET = {'quick': 3200, 'thorough': 200000}
